@@ -37,6 +37,7 @@ type Obligation struct {
 	Replay    *ReplayResult    // replay already performed (grammar witnesses)
 	Witness   string           // grammar witnesses: the failing input
 	Advisory  bool             // zero-annotation sweep obligation (claimed only when in the ledger)
+	Inlined   bool             // generated inside the body of an uncontracted helper executed in place (advisory, but a NEW failing family is reported)
 }
 
 type Engine struct {
